@@ -4,7 +4,7 @@ CONFIG = dict(
     gen="none",
     cflags=build.PLAIN_CFLAGS,
     programs=[("Sim4", "default", 3000, 5, 100000, 6), ("Sim1", "default", 2000, 5, 60000, 5), ("Sim2", "default", 1500, 2, 40000, 3),
-              ("Sim3", "default", 800, 1, 20000, 1)],
+              ("Sim3", "default", 800, 1, 20000, 1), ("Sim6", "default", 400, 1, 10000, 1)],
     budget_quick=60, budget_thorough=1500,
     eval_counter="c15.decodes", nontrivial_set="c15.heap_cases",
     rule="stack: every validated nest template (recursive types of the corpus in BER definite/indefinite, nested constructed strings, "
